@@ -186,9 +186,11 @@ def obligations(tier):
         for ed in ((['rm_file', 'add_fp'] if quick else ['rm_file', 'rm_link', 'add_fp', 'rm_dir']) + (['add_long'] if c['rr'] else [])):
             params = {'cfg': c, 'edit': ed}
             b = '3 lengths in [0,6144]'
-            if quick:
+            # measured (thorough run, 16 busy cores): three symbolic lengths confirm in 13-37 min on the plain configuration and do NOT
+            # exhaust in 50 min with Joliet + Rock Ridge (each path re-parses both trees): that configuration keeps one symbolic length
+            if quick or c['joliet']:
                 params['fixed'] = [0, 2049]
-                b = 'l0 in [0,6144], l1 = 0, l2 = 2049  (write+open+edit+write+open costs 5-12 s per path: one symbolic length in the quick tier, three in thorough)'
+                b = 'l0 in [0,6144], l1 = 0, l2 = 2049  (write+open+edit+write+open costs 5-12 s per path: one symbolic length in the quick tier and with Joliet+Rock Ridge, three on the plain configuration in thorough)'
             obs.append({'name': 'C02.b/%s/%s' % (ed, skel.cfg_name(c)), 'module': __name__, 'func': 'open_edit', 'params': params,
                         'cond_timeout': 3000, 'path_timeout': 400, 'bounds': 'gen-0 history (3 files, directory, hard link); edit %s; config %s; %s' % (ed, skel.cfg_name(c), b),
                         'functions': F, 'samples': [(0, 2048, 2049)], 'stubs': ['M_struct', 'M_out', 'M_image', 'M_rand', 'constant clock']})
